@@ -9,6 +9,7 @@
  *   userdir <lc> <letterhomes> <basepath> <path> <uripath>   mod_userdir_docroot_handler (basepath variant)
  *   xsf <lc> <value> <xdocroot> ...                          http_response_xsendfile
  *   xsf2 <lc> <value> <xdocroot> ...                         http_response_xsendfile2
+ *   xsfs / xsfs2 <lc> <status> <value> <xdocroot> ...        the same with the backend's own response status preset
  *   davdst <lc> <scheme> <authority> <docroot> <rel_path> <path> <destination>   mod_webdav_copymove_b
  *   symwalk <name> <path:kind> ...                           stat_cache_path_contains_symlink (real filesystem)
  *   idxfile <docroot> <phys> <k> <names...> <m> <existing...> mod_indexfile_tryfiles (real filesystem; the list of
@@ -274,6 +275,24 @@ int main(void) {
             ltv_open_called = 0;
             if (op[3] == '2') http_response_xsendfile2(r, b1, ltv_ntok > 3 ? arr : NULL);
             else              http_response_xsendfile(r, b1, ltv_ntok > 3 ? arr : NULL);
+            if (ltv_open_called) { fputs("send ", stdout); put_buf(&ltv_opened); fputc('\n', stdout); }
+            else printf("st %d\n", r->http_status);
+        }
+        else if ((0 == strcmp(op, "xsfs") || 0 == strcmp(op, "xsfs2")) && ltv_ntok >= 4) {
+            /* as xsf / xsf2, with the status the backend response carries when the header is processed
+             * (Status: 403 / 502 / ... from the CGI): xsfs <lc> <status> <value> <xdocroot> ... */
+            r->conf.force_lowercase_filenames = atoi(ltv_tok[1]);
+            r->conf.follow_symlink = 1;
+            r->http_status = atoi(ltv_tok[2]);
+            set_buf(b1, ltv_tok[3]);
+            for (int i = 4; i < ltv_ntok; ++i) {
+                set_buf(b2, ltv_tok[i]);
+                array_insert_value(arr, BUF_PTR_LEN(b2));
+            }
+            buffer_copy_string_len(&r->uri.path, CONST_STR_LEN("/x"));
+            ltv_open_called = 0;
+            if (op[4] == '2') http_response_xsendfile2(r, b1, ltv_ntok > 4 ? arr : NULL);
+            else              http_response_xsendfile(r, b1, ltv_ntok > 4 ? arr : NULL);
             if (ltv_open_called) { fputs("send ", stdout); put_buf(&ltv_opened); fputc('\n', stdout); }
             else printf("st %d\n", r->http_status);
         }
